@@ -8,6 +8,18 @@ TB = ("Trusted: Coq 8.16.1 kernel + coqc (vm_compute, no native_compute); axioms
       "The C code itself is modelled, not verified: theorems are about the Gallina model; the model is tied to /repo's current "
       "tree by T1 (regenerated Gen/Facts.v) and T2 (differential execution) on every run. ")
 CHECKS = {
+ "C01": dict(
+   text="Proof (Coq): the node-chain model of iwkv.c (which node: _lx_find_bounds at level 0; where: _sblk_find_pi_mm; overwrite / add / add-to-upper / "
+        "split at the pivot: _lx_addkv, _lx_split_addkv; delete / remove node: _lx_del_lw) refines an ordered association list for EVERY "
+        "operation history, every level choice and every comparator that is a total preorder (kv_refines_map), unconditionally for the byte-key "
+        "comparator with node size and pivot regenerated from the source; NodeInv preserved; an error leaves the state unchanged. "
+        "Tied by differential execution (answers, node structure, cursor bookkeeping) and a python reference-map oracle.",
+   design="5/C01",
+   note=TB + "Integer/real-number/compound comparators enter the theorem through the three order laws (checked on samples by C19, proved only for "
+        "plain byte keys). Data-block layout (L3) and skip-list links above level 0 (L2) are not in this model; they are covered by the structure "
+        "comparison and by C06. malloc failure and I/O error paths are not exercised. other-database isolation is by construction in the model "
+        "(one chain per database) and checked on the implementation by the oracle.",
+   technique="Coq refinement proof by induction over operation lists + extracted-model vs implementation correspondence + regenerated facts"),
  "C12": dict(
    text="Proof (Coq): executable model of iwexfile.c (three-way split per mmap slot, shared/private windows, truncate, ensure_size, "
         "add/remove mmap, resize policies with their C arithmetic, chunked copy) refined to a flat byte array for every call sequence with "
